@@ -12,30 +12,33 @@ PROPERTY = "C19"
 LEVEL = "exploration"
 DESIGN_REF = "DESIGN.md section 4, C19"
 RULE = (
-    "formats: for each of the 17 short-Weierstrass curves (names and OpenSSL names hard-coded in the check) and each key of a per-curve list (scalars "
-    "SEARCHED with libcrypto so that the top byte of X / of Y / of the private scalar is 00, X starting 02/03, d=1, d=n-1, seed-derived random scalars) the complete "
-    "grid {named, explicit parameters} x {uncompressed, compressed, hybrid} x {DER, PEM} for public keys, the same x {SEC1 'ssleay', PKCS#8} for private keys, "
-    "the four point strings and the raw private string is encoded by the library and decoded by the library (must give the same curve, point and scalar; the point is "
-    "d*G as computed by libcrypto), decoded by libcrypto (d2i_PUBKEY, d2i_AutoPrivateKey, PEM_read_bio_*, EC_POINT_oct2point: same curve nid, point, scalar, whole input consumed), "
-    "and every libcrypto encoding of the same grid (i2d_EC_PUBKEY, i2d_ECPrivateKey, PKCS8, PEM_write_bio_*, EC_POINT_point2oct) is decoded by the library. "
-    "bec2hdr: P-256 keys (searched leading-zero X/Y + Hypothesis scalars): VerifyingKey.to_der() must equal libcrypto's i2d byte for byte and start with the 27-byte header; "
-    "the plug-in's create_from_raw_fmt/to_raw_bin_fmt/create_from_der_fmt/to_der_fmt are checked as exact inverses against X||Y from libcrypto. "
-    "trunc: EVERY proper prefix and EVERY one-byte extension (256 values) of every DER encoding (library- and libcrypto-made, whole grid, plus ECParameters) and every point / private string "
-    "must raise a documented error. mutate: every single-byte mutation {00, FF, ^1, ^0x80, +1, -1}, deletion and duplication at every position of every DER / point string / "
-    "PEM (bytes and str) / ECParameters seed must decode or raise UnexpectedDER, MalformedPointError, UnknownCurveError or ValueError; any other exception is bucketed by "
-    "(exception type, innermost repository function outside _compat) and all buckets of a run are collected before reporting. generated: Hypothesis draws curve, scalar, one grid "
-    "cell and source (library/libcrypto), checks the round trip and cross-parse for it and applies 1..3 random byte replacements / TLV-aware structural edits "
-    "(drop, empty, duplicate an element with lengths re-computed) judged by the same exception rule. "
-    "Non-trivial: formats/generated cases always contain explicit parameters or a compressed/hybrid form or a leading-zero key (counted per case); "
-    "trunc: every prefix/extension; mutate: a mutated DER that still passes an independent outer-SEQUENCE header check, a point string of unchanged length, a PEM mutated inside its base64 body "
-    "(distinct by construction per seed, duplicates removed)."
+    "formats: for each of the 17 short-Weierstrass curves (library and OpenSSL names hard-coded in the check) and each key of a per-curve list (scalars SEARCHED with libcrypto "
+    "so that the top byte of X / of Y / of the private scalar is 00, X starting 02/03, d=1, d=n-1, seed-derived random scalars) the complete grid {named, explicit parameters} x "
+    "{uncompressed, compressed, hybrid} x {DER, PEM} for public keys, the same x {SEC1 'ssleay', PKCS#8} for private keys, the four point strings, the raw private string and the "
+    "ECParameters are encoded by the library and (a) decoded by the library: same curve, point, scalar, where the expected point is libcrypto's d*G; (b) decoded by libcrypto "
+    "(d2i_PUBKEY, d2i_AutoPrivateKey, PEM_read_bio_PUBKEY/PrivateKey, EC_POINT_oct2point): same nid, point, scalar, whole input consumed; (c) every libcrypto encoding of the same grid "
+    "(i2d_EC_PUBKEY, i2d_ECPrivateKey, PKCS8, PEM_write_bio_*, EC_POINT_point2oct) is decoded by the library. cli: the same through /usr/bin/openssl (ec/pkey -text, ec -conv_form "
+    "-param_enc, pkcs8 -topk8, ec -pubout) on PEM. bec2hdr: P-256 keys (searched leading-zero X/Y + Hypothesis scalars): VerifyingKey.to_der() equals libcrypto's i2d byte for byte "
+    "and starts with the 27-byte header; the plug-in's create_from_raw_fmt / to_raw_bin_fmt / create_from_der_fmt / to_der_fmt are exact inverses against X||Y from libcrypto. "
+    "trunc: EVERY proper prefix and EVERY one-byte extension (256 values) of every DER encoding (library- and libcrypto-made, whole grid, ECParameters) and of every point / private string "
+    "(auto-detecting and single-encoding decoders) must raise a documented error. mutate: every single-byte mutation {00, FF, ^1, ^0x80, +1, -1}, deletion and duplication at every "
+    "position of every DER / point string / PEM (bytes and str) / ECParameters seed must decode or raise UnexpectedDER, MalformedPointError, UnknownCurveError or ValueError; any other "
+    "exception is bucketed by (exception type, innermost repository function outside _compat); all buckets of a run are collected before reporting, listed buckets are counted as known findings. "
+    "struct: every TLV element x {drop, empty, duplicate, cut, drop-tail, retag} with lengths re-computed, same rule. bytes256: every position x every byte value for ECParameters and the "
+    "string decoders. tinyparams: syntactically valid ECParameters over every toy modulus 0..N (prime, composite, square, even) built with the check's own DER writer. fuzz: atheris/libFuzzer "
+    "campaigns of a fixed number of runs per decoder on seeded and empty corpora, exceptions bucketed without stopping. generated: Hypothesis draws curve, scalar, one grid cell and source, "
+    "checks round trip and cross-parse for it and applies a structural edit and/or 1..3 random byte replacements, same rule. "
+    "Non-trivial: formats/cli/generated cases always contain explicit parameters, a compressed/hybrid form or a leading-zero key (distinct by case hash); trunc: every prefix/extension; "
+    "mutate/struct/bytes256: a damaged DER that still passes an independent outer-SEQUENCE header check, a point string of unchanged length, a PEM damaged inside its base64 body (distinct per seed, "
+    "duplicates removed); fuzz: inputs that pass the same outer checks, distinct by hash (capped at 300000 per campaign). 'exhaustive' parts are complete for the listed seed encodings, not for all keys."
 )
 ASSUMPTIONS = [
-    "libcrypto (OpenSSL 3.0) is the second implementation: the expected public point is libcrypto's d*G, curve identity on the OpenSSL side is the nid it reports (also for explicit parameters, "
-    "which OpenSSL 3 matches against its built-in table)",
+    "libcrypto (OpenSSL 3.0) is the second implementation: the expected public point is libcrypto's d*G; curve identity on the OpenSSL side is the nid it reports (for explicit parameters the "
+    "nid that libcrypto reports for its own explicit encoding of the generator, i.e. the built-in curve it matched)",
     "'byte-compatible' is decided by cross-parsing in both directions; byte identity is demanded only for the P-256 SubjectPublicKeyInfo (identity of other encodings is recorded as classes ident.*)",
-    "documented errors = ecdsa.der.UnexpectedDER, ecdsa.errors.MalformedPointError, ecdsa.curves.UnknownCurveError, ValueError (incl. binascii.Error, UnicodeError)",
+    "documented errors = ecdsa.der.UnexpectedDER, ecdsa.errors.MalformedPointError, ecdsa.curves.UnknownCurveError, ValueError (incl. binascii.Error, UnicodeError); RuntimeError is not one of them",
     "rejection of truncated/extended input is demanded for DER and point/private strings only (PEM is judged by exception type only, as the property states)",
+    "hangs are not judged here (no wall-clock verdicts); a libFuzzer campaign that does not complete its runs is a harness error",
 ]
 
 env.load_repo()
@@ -69,7 +72,8 @@ REQUIRED_CLASSES = (
     + ["key.lead0-X", "key.lead0-Y", "key.lead0-d", "key.random", "params=named", "params=explicit", "priv=ssleay", "priv=pkcs8",
        "enc=raw", "enc=uncompressed", "enc=compressed", "enc=hybrid", "container=DER", "container=PEM", "src=library", "src=openssl",
        "p256.header-identical", "p256.raw-roundtrip", "p256.lead0-X", "p256.lead0-Y", "trunc.prefix", "trunc.extension", "trunc.rejected",
-       "mut.past-outer-seq", "mut.accepted", "gen.structural"]
+       "mut.past-outer-seq", "mut.accepted", "gen.structural", "tiny.p=odd-square", "tiny.accepted", "fuzz.corpus=seeded"]
+    + (["cli.reads-library-pem", "cli.library-reads-openssl-pem"] if os.path.exists("/usr/bin/openssl") else [])
     + ["mut.kind=" + k for k in MUT_KINDS]
 )
 
@@ -96,6 +100,8 @@ class Cx:
         self.Lp = (c19ossl.field_bits(self.g) + 7) // 8
         self.Ln = nbytes(self.n)
         self._c = None
+        # what libcrypto reports for its OWN explicit-parameter encoding (the built-in curve it matched, or 0)
+        self.nid_explicit = ossl.parse_pubkey_der(self.g.pub_der(self.g.generator(), ossl.POINT_UNCOMPRESSED, True))[0]
 
     @property
     def c(self):
@@ -245,7 +251,7 @@ def ossl_priv(cx, d, enc, fmt, explicit, pem):
     return r
 
 
-def ossl_reads_pub(cx, pub, data, pem, what):
+def ossl_reads_pub(cx, pub, data, pem, what, explicit=False):
     try:
         if pem:
             nid, p2 = c19ossl.parse_pubkey_pem(bytes(data))
@@ -254,12 +260,13 @@ def ossl_reads_pub(cx, pub, data, pem, what):
             nid, p2, used = ossl.parse_pubkey_der(bytes(data))
     except ValueError as e:
         raise Violation("%s: OpenSSL rejects %s (%s): %s" % (cx.name, what, e, bytes(data).hex()))
-    if nid != cx.g.nid or p2 != pub or used != len(data):
+    want_nid = cx.nid_explicit if explicit else cx.g.nid
+    if nid != want_nid or p2 != pub or used != len(data):
         raise Violation("%s: OpenSSL reads %s as nid %d point %r consuming %d of %d bytes; expected nid %d point (%#x, %#x): %s" % (
             cx.name, what, nid, p2, used, len(data), cx.g.nid, pub[0], pub[1], bytes(data).hex()))
 
 
-def ossl_reads_priv(cx, d, pub, data, pem, what):
+def ossl_reads_priv(cx, d, pub, data, pem, what, explicit=False):
     try:
         if pem:
             nid, d2, p2 = c19ossl.parse_private_pem(bytes(data))
@@ -268,7 +275,8 @@ def ossl_reads_priv(cx, d, pub, data, pem, what):
             nid, d2, p2, used = ossl.parse_private_der(bytes(data))
     except ValueError as e:
         raise Violation("%s: OpenSSL rejects %s (%s): %s" % (cx.name, what, e, bytes(data).hex()))
-    if nid != cx.g.nid or d2 != d or p2 != pub or used != len(data):
+    want_nid = cx.nid_explicit if explicit else cx.g.nid
+    if nid != want_nid or d2 != d or p2 != pub or used != len(data):
         raise Violation("%s: OpenSSL reads %s as nid %d scalar %r point %r consuming %d of %d bytes; expected nid %d scalar %#x" % (
             cx.name, what, nid, d2, p2, used, len(data), cx.g.nid, d))
 
@@ -293,7 +301,7 @@ def cell_public(cx, d, pub, vk, enc, explicit, pem, rec, srcs=("library", "opens
         out["library"] = bytes(b)
         v2 = call("%s: library decoding its own %s %s" % (cx.name, tag, bytes(b).hex()), dec, as_text(b, pem and explicit))
         expect_vk(cx, pub, v2, "library-made " + tag)
-        ossl_reads_pub(cx, pub, b, pem, "library-made " + tag)
+        ossl_reads_pub(cx, pub, b, pem, "library-made " + tag, explicit)
     if "openssl" in srcs:
         rec.cls("src=openssl")
         o = ossl_pub(cx, pub, enc, explicit, pem)
@@ -319,7 +327,7 @@ def cell_private(cx, d, pub, sk, enc, fmt, explicit, pem, rec, srcs=("library", 
         out["library"] = bytes(b)
         s2 = call("%s: library decoding its own %s" % (cx.name, tag), dec, as_text(b, pem and explicit))
         expect_sk(cx, d, pub, s2, "library-made " + tag)
-        ossl_reads_priv(cx, d, pub, b, pem, "library-made " + tag)
+        ossl_reads_priv(cx, d, pub, b, pem, "library-made " + tag, explicit)
     if "openssl" in srcs:
         rec.cls("src=openssl")
         o = ossl_priv(cx, d, enc, fmt, explicit, pem)
@@ -1127,11 +1135,63 @@ def strat_generated(tier):
     ))
 
 
+# ------------------------------------------------------------------------------------------------ part: tinyparams (degenerate explicit parameters)
+
+OID_PRIME_FIELD = bytes.fromhex("2a8648ce3d0101")
+OID_EC_PUBLIC_KEY = bytes.fromhex("2a8648ce3d0201")
+
+
+def der_uint(v):
+    return v.to_bytes(v.bit_length() // 8 + 1, "big")
+
+
+def tiny_ecparameters(p, a, b, base, n):
+    """ECParameters for a toy field, built with the check's own TLV writer."""
+    return [0x30, [
+        [0x02, None, b"\x01"],
+        [0x30, [[0x06, None, OID_PRIME_FIELD], [0x02, None, der_uint(p)]], b""],
+        [0x30, [[0x04, None, bytes((a,))], [0x04, None, bytes((b,))]], b""],
+        [0x04, None, base],
+        [0x02, None, der_uint(n)],
+    ], b""]
+
+
+def check_tiny(case, rec):
+    """Syntactically valid ECParameters whose field modulus is any small integer (prime, composite, square, 0, 1, even)."""
+    p = case["p"]
+    rec.cls("tiny.p=" + ("0/1" if p < 2 else "even" if p % 2 == 0 else "odd-square" if int(p ** 0.5 + 0.5) ** 2 == p else "odd"))
+    rec.nt()
+    params = tiny_ecparameters(p, case["a"], case["b"], case["base"], case["n"])
+    enc_params = tlv_build([params])
+    spki = tlv_build([[0x30, [[0x30, [[0x06, None, OID_EC_PUBLIC_KEY], params], b""], [0x03, None, b"\x00" + case["base"]]], b""]])
+    b = Buckets()
+    for decname, data in (("curve.from_der", enc_params), ("vk.from_der", spki)):
+        status, r = try_decode(decoder(decname, None), data)
+        rec.cls("tiny." + ("accepted" if status == "ok" else "rejected" if status == "rej" else "undocumented"))
+        if status == "bad":
+            b.add(r, decname, data, "toy explicit parameters p=%d a=%d b=%d base=%s n=%d" % (p, case["a"], case["b"], case["base"].hex(), case["n"]))
+    msg = b.settle(rec, "explicit parameters over the toy modulus %d" % p)
+    if msg:
+        raise Violation(msg)
+
+
+def enum_tiny(tier, shard, nshards, rng):
+    i = 0
+    top = 400 if tier == "quick" else 1500
+    for p in range(0, top):
+        for a, b in ((1, 1), (0, 7), (2, 3)):
+            bases = [bytes((t, x)) for t in (2, 3) for x in (0, 1, 2, 5)] + [bytes((4, 1, 1)), bytes((6, 2, 4))]
+            for base in bases:
+                i += 1
+                if i % nshards == shard:
+                    yield dict(p=p, a=a, b=b, base=base, n=7)
+
+
 # ------------------------------------------------------------------------------------------------ part: fuzz (atheris / libFuzzer campaigns)
 
 FUZZ_TARGETS = ("vk.from_der", "sk.from_der", "vk.from_pem", "sk.from_pem", "curve.from_der", "vk.from_string", "sk.from_string")
 FUZZ_UNITS = [(t, c) for t in FUZZ_TARGETS for c in ("seeded", "empty")]
-FUZZ_RUNS = {"quick": 15000, "thorough": 1000000}
+FUZZ_RUNS = {"quick": 15000, "thorough": 500000}
 
 
 def fuzz_decoder(target):
@@ -1212,6 +1272,7 @@ def parts(tier):
         Part("mutate", check=check_sweep, bulk=bulk_sweeps("mutate"), quick=(16, 0), thorough=(16, 0), exhaustive=True),
         Part("struct", check=check_sweep, bulk=bulk_sweeps("struct"), quick=(8, 0), thorough=(16, 0), exhaustive=True),
         Part("bytes256", check=check_sweep, bulk=bulk_sweeps("bytes256"), quick=(8, 0), thorough=(16, 0), exhaustive=True),
+        Part("tinyparams", check=check_tiny, enum=enum_tiny, quick=(4, 0), thorough=(8, 0), exhaustive=True),
         Part("fuzz", check=check_fuzz_input, bulk=bulk_fuzz, quick=(len(FUZZ_UNITS), 0), thorough=(len(FUZZ_UNITS), 0)),
         Part("generated", check=check_generated, strategy=strat_generated, quick=(16, 60), thorough=(16, 2500)),
     ]
